@@ -499,6 +499,13 @@ pub fn gen_history(t: &mut Tape, big_per_mille: u32) -> History {
             ops.push(Op::Reserve((*t.pick(&[131_070usize, 70_000, 200_000, 1 << 20])).max(big + 16)));
         }
         ops.push(op);
+        // one op in twelve is issued twice (a retry loop, a call made by two layers)
+        if t.chance(1, 12) {
+            let again = ops.last().unwrap().clone();
+            if !matches!(&again, Op::Payloads { vs, .. } if vs.len() > 1000) {
+                ops.push(again);
+            }
+        }
     }
     let mut h = History { ctor, ops };
     relate_explicit_lengths(t, &mut h);
